@@ -2,7 +2,7 @@
 (***************************************************************************)
 (* Block objects as editable lists (C15 C16 C18 C20).                      *)
 (*                                                                         *)
-(* An instance is  [ex, items, chans]                                      *)
+(* An instance is  [ex, items, chans, aux]                                 *)
 (*    ex     the instance exists                                           *)
 (*    items  sequence of [id, label]  (id = identity of the item object)   *)
 (*    chans  sequence of channel numbers, parallel to items, for the       *)
@@ -27,10 +27,14 @@ EXTENDS Integers, Sequences, FiniteSets, TLC
 
 Auto == -1
 ChanKinds   == {"EMG", "FPCal", "FPData"}
-LengthKinds == {"EMG", "Data3D", "Force"}          \* kinds whose items carry a frame count (C16)
-IndexKinds  == {"EMG", "Data3D", "Force", "Events"} \* kinds with index / label lookup (C18)
+\* "EMG0" = an EMG block of zero samples: it cannot be encoded, so its channel map
+\* (which has no public reader) is not observable; everything else is
+LengthKinds == {"EMG", "EMG0", "Data3D", "Force"}          \* kinds whose items carry a frame count (C16)
+IndexKinds  == {"EMG", "EMG0", "Data3D", "Force", "Events"} \* kinds with index / label lookup (C18)
 
-NoInst == [ex |-> FALSE, items |-> <<>>, chans |-> <<>>]
+\* aux: a count of auxiliary per-block content that is not an item (the marker links
+\* of a 3D block); 0 for the other kinds
+NoInst == [ex |-> FALSE, items |-> <<>>, chans |-> <<>>, aux |-> 0]
 
 Ids(inst)    == {inst.items[k].id : k \in 1..Len(inst.items)}
 Range(s)     == {s[k] : k \in 1..Len(s)}
@@ -59,7 +63,9 @@ StateClauses(kind, a, b) ==
 
 \* ---------------------------------------------------------------- per call
 \* everything but instance i is untouched (C20)
-OthersSame(w, w2, i) == \A j \in DOMAIN w : j # i => w2[j] = w[j]
+OthersSame(w, w2, I) == \A j \in DOMAIN w : j \notin I => w2[j] = w[j]
+\* a decode may also fill a "twin" slot: the same bytes decoded a second time
+Touched(o) == IF o.op = "decode" THEN {o.j} \cup (IF "twin" \in DOMAIN o THEN {o.twin} ELSE {}) ELSE {o.i}
 
 AddClauses(kind, a, b, o, r) ==
   LET x == [id |-> o.x.id, label |-> o.x.label]
@@ -134,19 +140,24 @@ EncodeClauses(kind, a, r) ==
 Step(kind, w, o, w2, r) ==
   LET i == o.i  a == w[i]  b == w2[i] IN
   \* C20: nobody else is touched; a lookup or an encoding touches nobody
-  If(~OthersSame(w, w2, IF o.op = "decode" THEN o.j ELSE i), "C20:other_instance_changed")
+  If(~OthersSame(w, w2, Touched(o)), "C20:other_instance_changed")
+  \* C20: no item object lives in two instances
+  \cup If(\E p, q \in DOMAIN w2 : p # q /\ Ids(w2[p]) \cap Ids(w2[q]) # {}, "C20:instances_share_items")
   \cup If(o.op \in {"lookup", "encode"} /\ w2 # w, IF o.op = "lookup" THEN "C18:lookup_changed_block" ELSE "C20:encode_changed_block")
   \cup (IF o.op = "decode" THEN StateClauses(kind, NoInst, w2[o.j]) ELSE StateClauses(kind, a, b))
   \cup (CASE o.op = "construct" ->
                \* C20: a block built without items is empty whatever happened before
-               If(~r.ok \/ ~b.ex \/ b.items # Strip(o.xs), "C20:constructed_not_as_given")
+               If(~r.ok \/ ~b.ex \/ b.items # Strip(o.xs) \/ b.aux # 0, "C20:constructed_not_as_given")
           [] o.op = "decode" ->
                LET d == w2[o.j] IN
                If(~r.ok \/ ~d.ex \/ Len(d.items) # Len(a.items)
                     \/ (Len(d.items) = Len(a.items) /\ \E k \in 1..Len(a.items) : d.items[k].label # a.items[k].label)
                     \/ (kind \in ChanKinds /\ d.chans # a.chans), "C15:decoded_differs")
+               \cup If(r.ok /\ d.ex /\ d.aux # a.aux, "C20:decoded_aux_differs")
                \cup If(d.ex /\ Ids(d) \cap Ids(a) # {}, "C20:decoded_shares_items")
                \cup If(o.j # i /\ w2[i] # a, "C20:decode_changed_source")
+               \cup If("twin" \in DOMAIN o /\ r.ok /\ (LET t == w2[o.twin] IN
+                          ~t.ex \/ Len(t.items) # Len(d.items) \/ t.chans # d.chans \/ t.aux # d.aux), "C20:second_decode_differs")
           [] o.op = "add"         -> AddClauses(kind, a, b, o, r)
           [] o.op = "remove"      -> RemoveClauses(kind, a, b, o, r)
           [] o.op = "assign"      -> AssignClauses(kind, a, b, o, r)
@@ -154,5 +165,6 @@ Step(kind, w, o, w2, r) ==
           [] o.op = "bulk_remove" -> {}
           [] o.op = "lookup"      -> LookupClauses(kind, a, o, r)
           [] o.op = "encode"      -> EncodeClauses(kind, a, r)
+          [] o.op = "aux"         -> If(~r.ok \/ b # [a EXCEPT !.aux = @ + 1], "C20:aux_edit")
           [] OTHER -> {})
 =============================================================================
